@@ -5,9 +5,16 @@
 //! the implementation's reply is `ok <signed ns moved>` / `err <kind>` / `panic`.  The harness reads
 //! the fields itself (`timestamp()`, `timestamp_subsec_nanos()`, `offset()`), so the wall-clock stamp
 //! the model computes is independent of `timestamp_nanos_opt`.
+//! The same call is also sent at the value level: `rd.n.<op> yof secs frac dur.secs dur.nanos`
+//! (NaiveDateTime: packed date word, seconds of day, nanosecond field) and
+//! `rd.z.<op> yof secs frac off dur.secs dur.nanos` (DateTime<FixedOffset>: the UTC reading and the
+//! offset); the reply is the RETURNED VALUE in the same encoding (`ok yof secs frac [off]`), so the
+//! model's `timestamp_nanos_opt` of the (wall-clock) reading and its `original +- TimeDelta` are
+//! compared with the crate on every case (Props/C17.lean `naive_result`, `zoned_result`).
 //! Direct oracles (i128 arithmetic on the implementation's own results): multiple of the span on the
 //! wall-clock stamp, less than one span moved, trunc <= x <= round_up, nearer with ties up,
 //! multiples fixed, idempotence, the exact error conditions, no panic.
+use super::c01::yof;
 use crate::ctx::*;
 use chrono::{
     DateTime, DurationRound, FixedOffset, NaiveDate, NaiveDateTime, NaiveTime, RoundingError, SubsecRound,
@@ -42,6 +49,12 @@ trait Obs: Copy + PartialEq + std::fmt::Debug + DurationRound<Err = RoundingErro
     fn since(&self, o: &Self) -> TimeDelta;
     /// the crate's own stamp (`None` also when `naive_local` is not representable)
     fn crate_stamp(&self) -> Option<Option<i64>>;
+    /// value-level op prefix and encoding of the value (packed date word, seconds of day, field[, offset])
+    const VOP: &'static str;
+    fn enc(&self) -> String;
+}
+fn enc_naive(dt: &NaiveDateTime) -> String {
+    format!("{} {} {}", yof(&dt.date()), dt.time().num_seconds_from_midnight(), dt.time().nanosecond())
 }
 impl Obs for NaiveDateTime {
     const KIND: &'static str = "naive";
@@ -60,6 +73,10 @@ impl Obs for NaiveDateTime {
     fn crate_stamp(&self) -> Option<Option<i64>> {
         Some(self.and_utc().timestamp_nanos_opt())
     }
+    const VOP: &'static str = "rd.n";
+    fn enc(&self) -> String {
+        enc_naive(self)
+    }
 }
 impl Obs for DateTime<FixedOffset> {
     const KIND: &'static str = "fixed";
@@ -77,6 +94,10 @@ impl Obs for DateTime<FixedOffset> {
     }
     fn crate_stamp(&self) -> Option<Option<i64>> {
         guard(|| self.naive_local().and_utc().timestamp_nanos_opt()).ok()
+    }
+    const VOP: &'static str = "rd.z";
+    fn enc(&self) -> String {
+        format!("{} {}", enc_naive(&self.naive_utc()), self.offset().local_minus_utc())
     }
 }
 
@@ -161,6 +182,16 @@ fn case<T: Obs>(c: &mut Ctx, x: T, dur: TimeDelta, tag: &str) {
         let nm = op.name();
         let res = guard(|| op.call(x, dur));
         let line = format!("rd.{} {} {} {} {} {}", nm, x.utc_secs(), x.subsec(), x.off(), ds, dn);
+        // value level: the whole call on the value itself, reply = the returned value
+        let vline = format!("{}.{} {} {} {}", T::VOP, nm, x.enc(), ds, dn);
+        c.op(
+            &vline,
+            &match &res {
+                Err(()) => "panic".to_string(),
+                Ok(Err(e)) => err_name(*e).to_string(),
+                Ok(Ok(r)) => format!("ok {}", r.enc()),
+            },
+        );
         let what = |s: &str| format!("{}: {}", nm, s);
         let ctxs = format!("{:?} (wall stamp {}) by {} ns [{}]", x, w, span, tag);
         match res {
@@ -248,6 +279,20 @@ fn case<T: Obs>(c: &mut Ctx, x: T, dur: TimeDelta, tag: &str) {
                     // >= 10^9; the same deviation on any other input is reported by the oracles below.
                     if crossed {
                         c.count("leap:rounded upwards past the end of the leap second");
+                    }
+                    // the exact account (theorems `naive_result_leap`, `zoned_result_leap`): the timestamp of
+                    // the result is the specified multiple m, except m - 10^9 when field + (m - w) >= 2*10^9
+                    let m = op.spec(w, span);
+                    let passes_end = x.subsec() as i128 + (m - w) >= 2 * NS;
+                    let told = if passes_end { m - NS } else { m };
+                    if wall_line(&r) != told {
+                        c.fail(
+                            &what("leap-second input: result is neither the multiple nor (past the end of the leap second) one second before it"),
+                            &format!("{ctxs} -> {:?}: stamp {}, theorem says {}", r, wall_line(&r), told),
+                        );
+                    }
+                    if passes_end != crossed || (r_leap != ((x.subsec() as i128 + (m - w)) >= NS && !passes_end)) {
+                        c.fail(&what("leap-second input: the result is a leap-second value exactly when it stays in the same leap second"), &format!("{ctxs} -> {:?}", r));
                     }
                     if wall_line(&r) != op.spec(w, span) {
                         c.count("leap:timestamp of the result is not the specified multiple (F19)");
@@ -391,7 +436,15 @@ fn gen_stamp(c: &mut Ctx, span: i64) -> i128 {
     v.clamp(I64_MIN, I64_MAX)
 }
 
-fn subsec_case<T: Copy + PartialEq + std::fmt::Debug + SubsecRound + Timelike>(c: &mut Ctx, x: T, digits: u16, secs_of: impl Fn(&T) -> i64, modulus: i64) {
+fn subsec_case<T: Copy + PartialEq + std::fmt::Debug + SubsecRound + Timelike>(
+    c: &mut Ctx,
+    x: T,
+    digits: u16,
+    secs_of: impl Fn(&T) -> i64,
+    modulus: i64,
+    vop: &str,
+    enc: impl Fn(&T) -> String,
+) {
     let frac = x.nanosecond() as i128;
     let span: i128 = 10i128.pow(9 - (digits.min(9) as u32));
     let leap = frac >= NS;
@@ -401,8 +454,23 @@ fn subsec_case<T: Copy + PartialEq + std::fmt::Debug + SubsecRound + Timelike>(c
         let res = guard(|| if round { x.round_subsecs(digits) } else { x.trunc_subsecs(digits) });
         let line = format!("rd.{} {} {}", nm, frac, digits);
         let ctxs = format!("{:?} to {} digits", x, digits);
+        // value level: the call on the value itself, reply = the returned value (or the documented
+        // panic of `+` at the very end of the range)
+        c.op(
+            &format!("{}.{} {} {}", vop, nm, enc(&x), digits),
+            &match &res {
+                Err(()) => "panic".to_string(),
+                Ok(r) => enc(r),
+            },
+        );
         let r = match res {
             Err(()) => {
+                if vop != "rd.t" && x.nanosecond() as i128 + (span - frac.rem_euclid(span)) >= base + NS && round {
+                    // Props/C17.lean `naive_subsecs_spec`: exactly when the carried second lies after
+                    // NaiveDateTime::MAX; the model must say `panic` too (line above)
+                    c.count(&format!("{nm}:panic at the end of the range (documented `+` overflow)"));
+                    continue;
+                }
                 c.op(&line, "panic");
                 c.fail(&format!("{nm}: panicked"), &ctxs);
                 continue;
@@ -638,6 +706,30 @@ pub fn run(c: &mut Ctx) {
         }
     }
 
+    // the wall-clock second -9223372038 with a leap-second field (reachable at offsets = 43 mod 60):
+    // line position >= i64::MIN for fields >= 1_145_224_192; `timestamp_nanos_opt` refused these
+    // before fix 32de816 (the negative-timestamp workaround overflowed): regression cases
+    {
+        let n_corner = c.n(60, 600);
+        for i in 0..n_corner {
+            let off = 60 * c.rng.range(-1439, 1438) as i32 + 43;
+            let utc = -9_223_372_038i64 - off as i64;
+            let frac = match i % 4 {
+                0 => *c.rng.pick(&[1_145_224_191u32, 1_145_224_192, 1_145_224_193, 1_500_000_000, 1_999_999_999, 1_000_000_000]),
+                _ => 1_000_000_000 + c.rng.nanos(),
+            };
+            let span = gen_span(c, &specials);
+            if let Some(u) = DateTime::<Utc>::from_timestamp(utc, frac) {
+                case(c, u.with_timezone(&FixedOffset::east_opt(off).unwrap()), TimeDelta::nanoseconds(span), "leap-corner");
+            }
+        }
+        // the kernel-checked instance of Props/C17.lean (example after `zoned_result_leap`)
+        let u = DateTime::<Utc>::from_timestamp(-9_223_372_081, 1_500_000_000).unwrap();
+        let f = u.with_timezone(&FixedOffset::east_opt(43).unwrap());
+        c.count("leap:1677-09-21T00:11:60.5Z at +00:00:43 (wall-clock stamp just inside the window)");
+        case(c, f, TimeDelta::seconds(1), "leap-corner");
+    }
+
     // the kernel-checked instance of the finding (Props/C17.lean), replayed on the crate
     {
         let x = NaiveDate::from_ymd_opt(2016, 12, 31).unwrap().and_hms_nano_opt(23, 59, 59, 1_500_000_000).unwrap();
@@ -691,14 +783,14 @@ pub fn run(c: &mut Ctx) {
             None => return,
         };
         match which % 3 {
-            0 => subsec_case(c, t, digits, |x| x.num_seconds_from_midnight() as i64, 86_400),
-            1 => subsec_case(c, date.and_time(t), digits, |x| x.and_utc().timestamp(), i64::MAX),
+            0 => subsec_case(c, t, digits, |x| x.num_seconds_from_midnight() as i64, 86_400, "rd.t", |x| format!("{} {}", x.num_seconds_from_midnight(), x.nanosecond())),
+            1 => subsec_case(c, date.and_time(t), digits, |x| x.and_utc().timestamp(), i64::MAX, "rd.n", enc_naive),
             _ => {
                 let off = gen_off(c);
                 let off = if leap { off / 60 * 60 } else { off };
                 let fo = FixedOffset::east_opt(off).unwrap();
                 let dt = fo.from_utc_datetime(&date.and_time(t));
-                subsec_case(c, dt, digits, |x| x.timestamp(), i64::MAX)
+                subsec_case(c, dt, digits, |x| x.timestamp(), i64::MAX, "rd.z", |x: &DateTime<FixedOffset>| x.enc())
             }
         }
     };
@@ -746,7 +838,20 @@ pub fn run(c: &mut Ctx) {
         let field = |v: i128| if v == base + NS { "0 1".to_string() } else { format!("{} 0", v) };
         c.op(&format!("rd.spec.sub {} {}", frac, digits), &format!("{} {}", field(t), field(r)));
     }
-    // documented panic of `Add` at the very end of the range: recorded, not judged here
+    // the last second of the range (Props/C17.lean `naive_subsecs_spec`, `zoned_subsecs_spec`): `+`
+    // panics exactly when the field rounds up into the second after NaiveDateTime::MAX
+    for frac in [0u32, 1, 499_999_999, 500_000_000, 949_999_999, 950_000_000, 999_999_999] {
+        for digits in [0u16, 1, 3, 8, 9] {
+            let t = NaiveTime::from_hms_nano_opt(23, 59, 59, frac).unwrap();
+            let x = NaiveDate::MAX.and_time(t);
+            subsec_case(c, x, digits, |x| x.and_utc().timestamp(), i64::MAX, "rd.n", enc_naive);
+            let off = *c.rng.pick(&OFFS);
+            let z = FixedOffset::east_opt(off).unwrap().from_utc_datetime(&x);
+            subsec_case(c, z, digits, |x| x.timestamp(), i64::MAX, "rd.z", |x: &DateTime<FixedOffset>| x.enc());
+            let y = NaiveDate::MIN.and_time(NaiveTime::from_hms_nano_opt(0, 0, 0, frac).unwrap());
+            subsec_case(c, y, digits, |x| x.and_utc().timestamp(), i64::MAX, "rd.n", enc_naive);
+        }
+    }
     if guard(|| NaiveDateTime::MAX.round_subsecs(0)).is_err() {
         c.count("obs:NaiveDateTime::MAX.round_subsecs(0) panics (Add overflow at the end of the range)");
     }
